@@ -919,6 +919,145 @@ func (w *World) depWalk(v ssa.Value, stack0 []*ssa.Call, pred func(ssa.Value, []
 		rootFn = stack0[0].Parent()
 	}
 	var walk func(v ssa.Value, stack []*ssa.Call) bool
+	// structField: walk what field `path` of the struct VALUE sv depends on, keeping the calling
+	// context: a helper's struct result is entered with the call pushed, a by-value parameter is
+	// replaced by the argument of the frame it belongs to. handled=false when the shape is not
+	// understood (the caller then falls back to the operands).
+	var structField func(sv ssa.Value, path []string, stack []*ssa.Call, d int) (handled, hit bool)
+	var structFieldOfLocal func(al *ssa.Alloc, path []string, stack []*ssa.Call, d int) (handled, hit bool)
+	structFieldOfLocal = func(al *ssa.Alloc, path []string, stack []*ssa.Call, d int) (bool, bool) {
+		if d > 6 || w.escapes(al) && false {
+			return false, false
+		}
+		found := false
+		var visit func(v ssa.Value, p []string) (bool, bool)
+		visit = func(v ssa.Value, p []string) (bool, bool) {
+			for _, r := range *v.Referrers() {
+				switch y := r.(type) {
+				case *ssa.FieldAddr:
+					name := derefStruct(y.X.Type()).Field(y.Field).Name()
+					if ok, hit := visit(y, append(append([]string{}, p...), name)); !ok || hit {
+						return ok, hit
+					}
+				case *ssa.Store:
+					if y.Addr != v {
+						continue
+					}
+					switch {
+					case samePath(p, path):
+						found = true
+						if walk(w.resolveLoad(y.Val), stack) {
+							return true, true
+						}
+					case isPrefix(p, path):
+						found = true
+						ok, hit := structField(y.Val, path[len(p):], stack, d+1)
+						if !ok {
+							return false, false
+						}
+						if hit {
+							return true, true
+						}
+					}
+				}
+			}
+			return true, false
+		}
+		ok, hit := visit(al, nil)
+		if !ok {
+			return false, false
+		}
+		_ = found
+		return true, hit
+	}
+	structField = func(sv ssa.Value, path []string, stack []*ssa.Call, d int) (bool, bool) {
+		if d > 6 || len(path) == 0 {
+			return false, false
+		}
+		switch y := sv.(type) {
+		case *ssa.Const:
+			return y.Value == nil, false
+		case *ssa.UnOp:
+			if y.Op == token.MUL {
+				if al, ok := y.X.(*ssa.Alloc); ok {
+					return structFieldOfLocal(al, path, stack, d+1)
+				}
+			}
+			return false, false
+		case *ssa.Phi:
+			for _, e := range y.Edges {
+				ok, hit := structField(e, path, stack, d+1)
+				if !ok || hit {
+					return ok, hit
+				}
+			}
+			return true, false
+		case *ssa.Parameter:
+			idx := paramIndex(y)
+			for i := len(stack) - 1; i >= 0; i-- {
+				if stack[i].Call.StaticCallee() == y.Parent() {
+					if idx >= 0 && idx < len(stack[i].Call.Args) {
+						return structField(stack[i].Call.Args[idx], path, stack[:i], d+1)
+					}
+					return false, false
+				}
+			}
+			if y.Parent() == rootFn {
+				return true, walk(y, stack) // an input of the function the question is asked in
+			}
+			n := 0
+			if node := w.CG.Nodes[y.Parent()]; node != nil {
+				for _, e := range node.In {
+					if e.Site == nil || e.Site.Common().IsInvoke() || !w.IsMod[e.Caller.Func] {
+						continue
+					}
+					if args := e.Site.Common().Args; idx >= 0 && idx < len(args) {
+						n++
+						ok, hit := structField(args[idx], path, nil, d+1)
+						if !ok || hit {
+							return ok, hit
+						}
+					}
+				}
+			}
+			return n > 0, false
+		case *ssa.Call, *ssa.Extract:
+			call, idx := callOf(sv)
+			if call == nil || call.Call.IsInvoke() {
+				return false, false
+			}
+			h := call.Call.StaticCallee()
+			if h == nil || !w.IsMod[h] || len(h.Blocks) == 0 || len(stack) >= 4 {
+				return false, false
+			}
+			if idx < 0 {
+				idx = 0
+			}
+			ns := append(append([]*ssa.Call{}, stack...), call)
+			rets := returnsOf(h)
+			for _, r := range rets {
+				if idx >= len(r.Results) {
+					return false, false
+				}
+				ok, hit := structField(r.Results[idx], path, ns, d+1)
+				if !ok {
+					return false, false
+				}
+				if hit {
+					return true, true
+				}
+				if len(rets) > 1 {
+					for f := range w.facts(h).in[r.Block()] {
+						if (f.X != nil && walk(f.X, ns)) || (f.Y != nil && walk(f.Y, ns)) {
+							return true, true
+						}
+					}
+				}
+			}
+			return true, false
+		}
+		return false, false
+	}
 	walk = func(v ssa.Value, stack []*ssa.Call) bool {
 		if v == nil || seen[v] {
 			return false
@@ -999,15 +1138,9 @@ func (w *World) depWalk(v ssa.Value, stack0 []*ssa.Call, pred func(ssa.Value, []
 			// one field of a struct VALUE (a helper's struct result, a by-value parameter, a
 			// local struct variable): only what was put into that field, plus the conditions
 			// under which the helper chose the return it came from
-			st, _ := x.X.Type().Underlying().(*types.Struct)
-			if st != nil {
-				if vals, ok := w.flow().structValueField(x.X, []string{st.Field(x.Field).Name()}, 0); ok {
-					for _, val := range vals {
-						if walk(w.resolveLoad(val), stack) {
-							return true
-						}
-					}
-					return w.structOriginControl(x.X, 0, func(v ssa.Value) bool { return walk(v, stack) })
+			if st, _ := x.X.Type().Underlying().(*types.Struct); st != nil {
+				if handled, hit := structField(x.X, []string{st.Field(x.Field).Name()}, stack, 0); handled {
+					return hit
 				}
 			}
 		case *ssa.Alloc, *ssa.MakeSlice:
@@ -1026,20 +1159,8 @@ func (w *World) depWalk(v ssa.Value, stack0 []*ssa.Call, pred func(ssa.Value, []
 				// value-receiver method is called on it): only what was put into that field
 				if _, isFA := x.X.(*ssa.FieldAddr); isFA {
 					if al, path := allocBase(x.X); al != nil && len(path) > 0 {
-						if vals, ok := w.flow().localFieldStoresP(al, path); ok {
-							for _, val := range vals {
-								if walk(w.resolveLoad(val), stack) {
-									return true
-								}
-							}
-							for _, r := range *al.Referrers() {
-								if st, isSt := r.(*ssa.Store); isSt && st.Addr == ssa.Value(al) {
-									if w.structOriginControl(st.Val, 0, func(v ssa.Value) bool { return walk(v, stack) }) {
-										return true
-									}
-								}
-							}
-							return false
+						if handled, hit := structFieldOfLocal(al, path, stack, 0); handled {
+							return hit
 						}
 					}
 				}
